@@ -115,6 +115,9 @@ CORPUS_QUERIES = [
     {"segs": [{"k": "desc", "sels": [{"t": "wild"}, {"t": "wild"}]}]},
     {"segs": [{"k": "desc", "sels": [{"t": "wild"}, {"t": "filter", "e": {"t": "rel", "q": {"segs": []}}}]}]},
     {"segs": [{"k": "child", "sels": [{"t": "filter", "e": {"t": "rel", "q": {"segs": []}}}, {"t": "wild"}]}]},
+    # a single selector on the root: n! orderings for an object with n members
+    {"segs": [{"k": "child", "sels": [{"t": "wild"}]}]},
+    {"segs": [{"k": "child", "sels": [{"t": "filter", "e": {"t": "rel", "q": {"segs": []}}}]}]},
 ]
 
 
@@ -154,7 +157,7 @@ def _build_corpus() -> List[Tuple[Dict[str, Any], Any]]:
 
 
 CORPUS = _build_corpus()
-QUICK_CORPUS_STRIDE = 53  # quick tier: every 41st corpus case + all THREE_RUN_DOCS cases at the end
+QUICK_CORPUS_STRIDE = 61  # quick tier: every 41st corpus case + all THREE_RUN_DOCS cases at the end
 EXHAUST_CAP = {"quick": 64, "thorough": 256}
 
 
@@ -181,7 +184,10 @@ def _locs_det(text: str, doc: Any) -> List[Tuple]:
     return [n.location for n in _DENV.find(text, doc)]
 
 
-def run_stream(text: str, doc: Any, sseed: int, profile: Dict[str, Any], feed: Optional[list] = None):
+_COMPILED: Dict[str, Any] = {}
+
+
+def run_stream(text: str, doc: Any, sseed: int, profile: Dict[str, Any], feed: Optional[list] = None, reuse_compiled: bool = False):
     """Evaluate in nondeterministic mode under one choice stream.
 
     Returns (locs | None, exc class name | None, identity_ok, trace, draws).
@@ -192,7 +198,20 @@ def run_stream(text: str, doc: Any, sseed: int, profile: Dict[str, Any], feed: O
     simrandom.install(sim)
     try:
         try:
-            nodes = _NENV.find(text, doc)
+            if reuse_compiled:
+                # one compiled query applied again and again (an order fixed at compile
+                # time, or remembered on the compiled objects, shows only this way), with a
+                # deterministic environment compiling and evaluating in between (a mode or
+                # order kept process-wide instead of per environment shows only this way)
+                if text not in _COMPILED:
+                    if len(_COMPILED) > 50:
+                        _COMPILED.clear()
+                    _COMPILED[text] = _NENV.compile(text)
+                assert _DENV is not None
+                _DENV.find("$..[*]", {"a": [1, {"b": 2}], "c": 3})
+                nodes = _COMPILED[text].find(doc)
+            else:
+                nodes = _NENV.find(text, doc)
         except simrandom.ChoiceBudgetExceeded:
             return None, "no-termination: more than 50000 random decisions consumed", True, sim.log[:200], sim.draws
         except Exception as exc:  # noqa: BLE001
@@ -268,6 +287,7 @@ def check_case(
     corpus_index: Optional[int] = None,
     exhaust_cap: int = 64,
     force_tapped: Optional[bool] = None,
+    reuse_compiled: bool = False,
 ) -> Dict[str, Any]:
     """Validity on the given streams; if exhaust_budget > 0 also reached-set search."""
     text = Q.render(qast)
@@ -298,6 +318,8 @@ def check_case(
 
     structure = Structure(qast, doc, lambda t: _locs_det(t, doc))
 
+    reuse = bool(reuse_compiled)
+
     def one(sseed: int, profile: Dict[str, Any], feed: Optional[list], tapped: bool = False) -> None:
         nonlocal last_new, n_streams
         n_streams += 1
@@ -317,7 +339,7 @@ def check_case(
                     out["events"].append(["structure", err[:80]])
                     return
         else:
-            locs, exc, ident, trace, draws = run_stream(text, doc, sseed, profile, feed)
+            locs, exc, ident, trace, draws = run_stream(text, doc, sseed, profile, feed, reuse_compiled=reuse)
         st["streams"] += 1
         out["steps"] += len(trace)
         for t in trace:
@@ -325,6 +347,7 @@ def check_case(
         payload = {
             "kind": "validity",
             "tapped": tapped,
+            "reuse_compiled": reuse,
             "query": qast,
             "doc": doc,
             "stream": {"seed": sseed, "profile": profile, "trace": trace},
@@ -396,6 +419,7 @@ def check_case(
                         "corpus_index": corpus_index,
                         "budget": exhaust_budget,
                         "exhaust_cap": exhaust_cap,
+                        "reuse_compiled": reuse,
                         "exhaust_seed": exhaust_seed,
                         "missing_example": _jsonable_seq(m0),
                         "n_missing": len(missing),
@@ -461,7 +485,7 @@ def run_one(seed: int, tier: str, index: int) -> Dict[str, Any]:
         rng = seeds.stream(seed, "choices")
         streams = [(rng.getrandbits(48), simrandom.draw_profile(rng), None) for _ in range(8)]
         budget = 200_000 if tier == "thorough" else 20_000
-        res = check_case(q, doc, streams, exhaust_budget=budget, exhaust_seed=seed, corpus_index=ci, exhaust_cap=EXHAUST_CAP[tier])
+        res = check_case(q, doc, streams, exhaust_budget=budget, exhaust_seed=seed, corpus_index=ci, exhaust_cap=EXHAUST_CAP[tier], reuse_compiled=(index % 2 == 1))
         res["stats"]["runs_corpus"] += 1
     else:
         wl = seeds.stream(seed, "workload")
@@ -474,7 +498,7 @@ def run_one(seed: int, tier: str, index: int) -> Dict[str, Any]:
             res = check_case(q, doc, streams, exhaust_budget=20_000, exhaust_seed=seed, exhaust_cap=32)
             res["stats"]["runs_random_exhaust"] += 1
         else:
-            res = check_case(q, doc, streams)
+            res = check_case(q, doc, streams, reuse_compiled=(index % 3 == 0))
         res["stats"]["runs_random"] += 1
     sample = None
     if index % 997 == 0 or (index < len(cidx) and index % 7 == 0):
@@ -498,9 +522,9 @@ def replay(payload: Dict[str, Any]) -> List[Dict[str, Any]]:
     q, doc = payload["query"], payload["doc"]
     if payload["kind"] == "validity":
         s = payload["stream"]
-        res = check_case(q, doc, [(s["seed"], s["profile"], s.get("trace"))], force_tapped=bool(payload.get("tapped")))
+        res = check_case(q, doc, [(s["seed"], s["profile"], s.get("trace"))], force_tapped=bool(payload.get("tapped")), reuse_compiled=bool(payload.get("reuse_compiled")))
         return res["violations"]
-    res = check_case(q, doc, [], exhaust_budget=payload["budget"], exhaust_seed=payload["exhaust_seed"], corpus_index=payload.get("corpus_index"), exhaust_cap=payload.get("exhaust_cap", 64))
+    res = check_case(q, doc, [], exhaust_budget=payload["budget"], exhaust_seed=payload["exhaust_seed"], corpus_index=payload.get("corpus_index"), exhaust_cap=payload.get("exhaust_cap", 64), reuse_compiled=bool(payload.get("reuse_compiled")))
     return res["violations"]
 
 
